@@ -186,6 +186,8 @@ def run_one(seed: int, tid: int, mode: str):
                 else:
                     rdy = [i for i in legal if all(q.state() == S.COMPLETED for q in ops[i].parents)] or legal
                     sel = [rng.choice(rdy)]
+                    if not valid and not multi and len(rdy) >= 2 and rng.random() < 0.3:
+                        sel = rng.sample(rdy, 2)          # two operators for a one-operator container: refused (operator count)
             else:
                 sel = [rng.randrange(len(ops)) for _ in range(rng.randint(0, 2))]
             # occasionally a container mixing operators of TWO pipelines (ready operators only, so admissible)
@@ -211,7 +213,7 @@ def run_one(seed: int, tid: int, mode: str):
             else:
                 c = rng.choice([1, 1, 2, max(1, R.avail_cpu_pool), cpu]) if valid or rng.random() < (0.8 if reject_mode else 0.9) else rng.choice([0, cpu + 1, R.avail_cpu_pool + 1])
                 r = (rng.choice([Q * rng.choice([1, 2, 4, 5, 8, 9, 12, 13, 16, 21, 24, 32]),
-                                 F(R.avail_ram_pool) if R.avail_ram_pool > 0 else Q, ram])
+                                 F(R.avail_ram_pool) if R.avail_ram_pool * k["U"] >= 1 else Q, ram])          # (not a float residue of 1e-15 GB: it projects to 0 units)
                      if valid or rng.random() < (0.85 if reject_mode else 0.94) else rng.choice([F(0), F(R.avail_ram_pool) + F(1, k["U"])]))
             if k["huge"] and rng.random() < 0.35 and R.avail_ram_pool > 0:
                 r = F(R.avail_ram_pool) + F(1, k["U"])          # oversold by a relative 1e-9
